@@ -173,6 +173,10 @@ func GenerateImpl(seed uint64, root string) *Module {
 			}
 			b.WriteString("}\n\n")
 		}
+		if pkg == "ifc" {
+			// interfaces declared through alias declarations: of a defined interface, and of an interface literal
+			b.WriteString("type AliasI0 = I0\n\ntype Closer = interface{ Close() error }\n\n")
+		}
 		return b.String()
 	}
 	m.Files[root+"/ifc/ifc.go"] = render("ifc")
@@ -230,6 +234,12 @@ func GenerateImpl(seed uint64, root string) *Module {
 	b.WriteString("}\n\n")
 	all := append([]iface{}, ifaces...)
 	all = append(all, iface{pkg: "", name: "LocalI", sigs: localSigs})
+	{
+		a := ifaces[0]
+		a.name = "AliasI0"
+		all = append(all, a, iface{pkg: "ifc", name: "Closer", sigs: []msig{{name: "Close", results: []int{4}}}})
+	}
+	var made []string // struct types declared so far (targets of alias declarations)
 
 	nT := 4 + r.Intn(5)
 	for t := 0; t < nT; t++ {
@@ -324,6 +334,7 @@ func GenerateImpl(seed uint64, root string) *Module {
 		default:
 			b.WriteString(fmt.Sprintf("%s\ntype %s struct{ Z int }\n\n", ann, tname))
 		}
+		made = append(made, tname)
 		for k, s := range need {
 			variant := r.Intn(8) // 0..4 correct, 5 missing, 6 wrong type, 7 pointer depth / variadic change
 			if s.name == "seal" {
@@ -372,6 +383,31 @@ func GenerateImpl(seed uint64, root string) *Module {
 				}
 			}
 			b.WriteString(g.methodDecl(pool, recv, ms) + "\n\n")
+		}
+	}
+	// annotated alias declarations: the annotation is about the type the alias denotes
+	for k := 0; k < 3 && len(made) > 0; k++ {
+		target := made[r.Intn(len(made))]
+		it := all[r.Intn(len(all))]
+		q := ""
+		switch it.pkg {
+		case "ifc":
+			q = qual
+		case "yaml":
+			q = yq
+		}
+		amp := ""
+		if r.Chance(1, 3) {
+			amp = "&"
+		}
+		ann := "// @implements " + amp + q + it.name
+		switch r.Intn(4) {
+		case 0:
+			b.WriteString(fmt.Sprintf("%s\ntype AliasP%d = *%s\n\n", ann, k, target))
+		case 1:
+			b.WriteString(fmt.Sprintf("%s\ntype AliasS%d = struct{ %s }\n\n", ann, k, target))
+		default:
+			b.WriteString(fmt.Sprintf("%s\ntype AliasT%d = %s\n\n", ann, k, target))
 		}
 	}
 	udir := root + "/" + map[bool]string{true: "ifcuser", false: "user"}[uname == "ifc"]
